@@ -20,6 +20,35 @@ def parser_probe(variant="json", release=False):
     return _built[key]
 
 
+def codegen_probe(variant="default"):
+    """Regenerates the `#[path]` module list from the real lib.rs of the macro crate, then builds."""
+    import re
+    from .common import REPO, HARNESS
+    key = ("cg", variant)
+    if key not in _built:
+        src = open(os.path.join(REPO, "leptos_i18n_macro", "src", "lib.rs")).read()
+        mods = re.findall(r'^(?:pub(?:\(crate\))?\s+)?mod\s+(\w+)\s*;', src, re.M)
+        lines = []
+        for m in mods:
+            base = os.path.join(REPO, "leptos_i18n_macro", "src")
+            p = os.path.join(base, m + ".rs") if os.path.exists(os.path.join(base, m + ".rs")) else os.path.join(base, m, "mod.rs")
+            lines.append('#[path = "%s"]\npub(crate) mod %s;' % (p, m))
+        new = "\n".join(lines) + "\n"
+        path = os.path.join(HARNESS, "codegen_probe", "src", "mods.rs")
+        if not os.path.exists(path) or open(path).read() != new:
+            with open(path, "w") as f:
+                f.write(new)
+        _built[key] = cargo_build("cg_" + variant)
+    return _built[key]
+
+
+def build_probe():
+    key = ("bp",)
+    if key not in _built:
+        _built[key] = cargo_build("build_probe")
+    return _built[key]
+
+
 def _limits(cpu_s, mem_gb=8):
     def f():
         resource.setrlimit(resource.RLIMIT_CPU, (cpu_s, cpu_s + 2))
@@ -35,7 +64,7 @@ def run_batch(binary, cases, cpu_per_case=20, wall_timeout=None, args=None, env=
     pending = list(cases)
     while pending:
         inp = "\n".join(json.dumps(c, ensure_ascii=False) for c in pending) + "\n"
-        cpu = max(30, cpu_per_case * min(len(pending), 50))
+        cpu = int(cpu_per_case + 10 + 0.05 * len(pending))
         t0 = time.time()
         try:
             p = subprocess.run([binary] + (args or []), input=inp.encode("utf-8"), stdout=subprocess.PIPE,
@@ -50,7 +79,7 @@ def run_batch(binary, cases, cpu_per_case=20, wall_timeout=None, args=None, env=
         for line in out.decode("utf-8", "replace").splitlines():
             try:
                 d = json.loads(line)
-            except ValueError:
+            except (ValueError, RecursionError):
                 continue
             if "begin" in d:
                 begun = d["begin"]
